@@ -713,7 +713,11 @@ fn main() {
          with <=1 (quick) / <=2 (thorough, sequences of <=2 definitions) non-zero choices; sequences of 3 definitions get the default \
          spelling and every combination of the section-merge choices (quick: only the residue class of 3-sequences named in seq3_slice, \
          a supplementary slice). Spot checks: sequences of <=2 definitions over the 1-byte menu moved to 3- and 4-byte codes and mixed with \
-         the 1-byte originals (len134), and hand-written CMaps at both ends of the code space of every length (edges, default spelling). \
+         the 1-byte originals (len134), and hand-written CMaps at both ends of the code space of every length (edges, default spelling); large sections (large_sections: bfchar and bfrange sections of 33/40/64/100 \
+         entries in multiplicatively permuted order with 1..6 re-definitions of a code inside the section, rendered one section per \
+         definition and fully merged); long input strings (long_strings: for CMaps with one-unit, two-unit and surrogate-pair targets, \
+         n one-unit codes followed by a multi-unit code for every n in 0..=400, runs of multi-unit codes up to 300, and lengths around \
+         2^9..2^16, so a multi-unit target starts at every output offset). \
          Each rendering is parsed with get_font_encoding and every mapped code and every ordered pair of mapped codes is decoded with \
          decode_text (CMaps with more than 24 mapped codes, which only occur in edges: all codes alone, pairs over 8 of them). \
          A case is a (definition sequence, choice vector) with conservative choices only; it is non-trivial when two of its definitions \
